@@ -171,8 +171,40 @@ func applyRow(t *rapid.T, c *Case, row Row, op *hx.Op) {
 			target.Dirs = append(target.Dirs, *sk)
 		}
 	}
+	if rapid.IntRange(0, 2).Draw(t, "foreignDirective") == 0 {
+		withForeignDirective(c, target, rapid.IntRange(0, 2).Draw(t, "foreignPos"))
+	}
 	c.Doc.Number()
 	c.Note = row.String()
+}
+
+// noteDirective is a directive of the schema's own that requests may put on selections; it says
+// nothing about inclusion.
+func noteDirective() *hx.DirDef {
+	return &hx.DirDef{Name: "note", Args: []*hx.Arg{{Name: "text", Type: hx.Named("String")}}, On: []string{"FIELD", "FRAGMENT_SPREAD", "INLINE_FRAGMENT"}}
+}
+
+// withForeignDirective writes a use of @note at position pos among the directives of the selection.
+func withForeignDirective(c *Case, target *hx.Sel, pos int) {
+	has := false
+	for _, d := range c.Schema.Dirs {
+		if d.Name == "note" {
+			has = true
+		}
+	}
+	if !has {
+		c.Schema.Dirs = append(c.Schema.Dirs, noteDirective())
+	}
+	if pos > len(target.Dirs) {
+		pos = len(target.Dirs)
+	}
+	du := hx.DirUse{Name: "note"}
+	if pos%2 == 1 {
+		du.Args = []hx.KV{{Key: "text", V: hx.Str("n")}}
+	}
+	ds := append([]hx.DirUse{}, target.Dirs[:pos]...)
+	ds = append(ds, du)
+	target.Dirs = append(ds, target.Dirs[pos:]...)
 }
 
 func genCaseC09(t *rapid.T) *Case {
@@ -225,6 +257,11 @@ func classesC09(c *Case, exp *hx.Expect) (bool, []string) {
 	cl = append(cl, "row: "+c.Note)
 	if len(c.PrimeVars) > 0 {
 		cl = append(cl, "parsed-request-resolved-before-with-other-conditions")
+	}
+	for _, d := range c.Schema.Dirs {
+		if d.Name == "note" {
+			cl = append(cl, "other-directive-on-the-selection")
+		}
 	}
 	both := false
 	if exp != nil {
@@ -299,6 +336,11 @@ func TestC09(t *testing.T) {
 						continue
 					}
 					applyRowAt(c, row, (*ss[si].parent)[ss[si].idx])
+					if (si+len(row.String()))%2 == 0 {
+						// every other case also carries a directive of the schema's own, in front of the two
+						withForeignDirective(c, (*ss[si].parent)[ss[si].idx], 0)
+						c.Doc.Number()
+					}
 					for _, reuse := range []bool{false, true} {
 						if reuse {
 							// the same row on a parsed request that was resolved before with the
